@@ -20,7 +20,7 @@ FIELD_NAMES = ['alpha', 'beta', 'gamma']
 
 def literal_variants(stem, k):
     """distinct explicit spellings derived from a unique stem"""
-    pool = [stem.lower() + '-lit', stem + 'Alt', 'é' + stem, stem.upper() + '_9', 'x ' + stem, stem + 'ß', '1' + str(k) + '23']
+    pool = [stem.lower() + '-lit', stem + 'Alt', 'É' + stem, stem.upper() + '_9', 'x ' + stem, stem + 'ß', '1' + str(k) + '23']
     return pool
 
 
@@ -213,7 +213,7 @@ def restyled_idents(enums):
 
 def soup_literals(rng, stem, k):
     base = stem + str(k)
-    pool = [base, base.lower(), base.upper(), base.swapcase(), base + 'x', 'é' + base, base.capitalize(), base[::-1] + '_', base + ' ', ' ' + base]
+    pool = [base, base.lower(), base.upper(), base.swapcase(), base + 'x', 'é' + base, 'É' + base, 'Ω' + base.lower(), base.capitalize(), base[::-1] + '_', base + ' ', ' ' + base]
     return pool
 
 
